@@ -30,7 +30,7 @@ PROPS["C13"] = dict(
                "is scribbled and freed as soon as Emit returns so ASan and the content comparison expose retained pointers; "
                "two runs switch ASan's quarantine off so that freed blocks (spans, records, caller buffers) are reused at once.",
     technique="model-based PBT (reference log-record model) over generated emit programs with short-lived caller storage; rapidcheck; real threads for the per-thread active span clause",
-    rule="A case = provider configuration + emit program(s).",
+    rule="A case = provider configuration + emit program(s); logger_lifetime: a program of emits through loggers whose handles are released while the record waits in a batch processor, with further GetLogger calls for known and new scopes.",
     assumptions=[
         "a timestamp / body / event that is not supplied is not compared; a severity that is not supplied is expected to stay "
         "Severity::kInvalid (the API's 'unspecified' value)",
